@@ -30,6 +30,8 @@ pub enum Init {
     SurplusIdle,
     /// as SurplusIdle, and 4.9999 s later: the surplus workers' idle timeout is due
     SurplusDue,
+    /// as SurplusIdle, and 6 s later: the idle workers have retired
+    SurplusRetired,
 }
 
 #[derive(Clone, Debug, PartialEq)]
@@ -54,6 +56,8 @@ impl PoolScenario {
             Init::SurplusIdle
         } else if i == "SurplusDue" {
             Init::SurplusDue
+        } else if i == "SurplusRetired" {
+            Init::SurplusRetired
         } else {
             Init::Busy(i.trim_start_matches("Busy(").trim_end_matches(')').parse().unwrap_or(1))
         };
@@ -134,7 +138,7 @@ pub fn pool_body(sc: PoolScenario, obs: Arc<Mutex<PoolObs>>) {
                 next += 1;
             }
         }
-        Init::SurplusIdle | Init::SurplusDue => {
+        Init::SurplusIdle | Init::SurplusDue | Init::SurplusRetired => {
             ctl::settle();
             let mut gs = Vec::new();
             for _ in 0..6 {
@@ -150,6 +154,10 @@ pub fn pool_body(sc: PoolScenario, obs: Arc<Mutex<PoolObs>>) {
             ctl::settle();
             if sc.init == Init::SurplusDue {
                 ctl::sleep(Duration::from_nanos(4_999_900_000));
+            }
+            if sc.init == Init::SurplusRetired {
+                ctl::sleep(Duration::from_millis(6000));
+                ctl::settle();
             }
         }
     }
@@ -367,7 +375,7 @@ fn items(tier: Tier) -> &'static Vec<Item> {
     cell.get_or_init(|| {
         let thorough = tier == Tier::Thorough;
         let mut v = Vec::new();
-        let inits = [Init::Fresh, Init::Idle, Init::Busy(1), Init::Busy(3), Init::Busy(4), Init::SurplusIdle, Init::SurplusDue];
+        let inits = [Init::Fresh, Init::Idle, Init::Busy(1), Init::Busy(3), Init::Busy(4), Init::SurplusIdle, Init::SurplusDue, Init::SurplusRetired];
         let mut burst_sets: Vec<(Vec<usize>, bool)> = Vec::new();
         for n in [1usize, 2, 3, 4, 5, 6, 8] {
             burst_sets.push((vec![n], false));
@@ -383,7 +391,7 @@ fn items(tier: Tier) -> &'static Vec<Item> {
                     if total <= 5 { 2 } else { 1 }
                 } else if total <= 3 {
                     1
-                } else if total <= 5 && matches!(init, Init::Idle | Init::SurplusDue) {
+                } else if total <= 5 && matches!(init, Init::Idle | Init::SurplusDue | Init::SurplusRetired) {
                     1
                 } else {
                     0
@@ -447,7 +455,7 @@ impl Check for C08 {
     }
     fn rule(&self, tier: Tier) -> String {
         format!(
-            "(a) real TaskPool: initial state {{fresh, all 4 idle, 1/3/4 workers busy for ever, surplus workers idle in their timed wait, surplus workers whose 5 s idle timeout is due}} x dispatch pattern {{one burst of 1,2,3,4,5,6,8 tasks; two bursts (1,4) (4,1) (2,3) (4,4) (3,3) separated by quiescence, the first burst's tasks finishing in between or not}}; every task records its start and then stays open on a harness gate; (b) real Server with N in {{1,4,5,6,8,32{}}} keep-alive connections sending one request each and staying open, in one burst or two; {} scenarios, explored for all schedules with at most {} deviations (strict costs), window = the burst; oracle at quiescence: every dispatched task has started / every connection has its response while all others are still open, each task started once, one open task per worker; non-trivial = all",
+            "(a) real TaskPool: initial state {{fresh, all 4 idle, 1/3/4 workers busy for ever, surplus workers idle in their timed wait, surplus workers whose 5 s idle timeout is due, surplus workers retired after 6 s of idleness}} x dispatch pattern {{one burst of 1,2,3,4,5,6,8 tasks; two bursts (1,4) (4,1) (2,3) (4,4) (3,3) separated by quiescence, the first burst's tasks finishing in between or not}}; every task records its start and then stays open on a harness gate; (b) real Server with N in {{1,4,5,6,8,32{}}} keep-alive connections sending one request each and staying open, in one burst or two; {} scenarios, explored for all schedules with at most {} deviations (strict costs), window = the burst; oracle at quiescence: every dispatched task has started / every connection has its response while all others are still open, each task started once, one open task per worker; non-trivial = all",
             if tier == Tier::Thorough { ",64" } else { "" }, items(tier).len(), if tier == Tier::Thorough { "2 (<= 5 tasks) / 1 (pool), 1 (server N<=5) / 0" } else { "1 (small bursts) / 0" }
         )
     }
